@@ -85,10 +85,10 @@ def run(chk):
     def same(a, b):
         return a is not None and b is not None and a[0] == b[0] and a[1] == b[1]
 
-    base_l = sig(ref[('L', False, 'inside')])
-    base_s = sig(ref[('S', 'No', 'inside')])
-    base_b = sig(ref[('B', False, 'inside', 'inside')])
-    chk.ob('R6.1', "reference kernels (extrapolation off, query inside) were extracted", None not in (base_l, base_s, base_b), key='reference')
+    base_l = sig(ref[('L', True, 'inside')])
+    base_s = sig(ref[('S', 'Yes', 'inside')])
+    base_b = sig(ref[('B', True, 'inside', 'inside')])
+    chk.ob('R6.1', "reference kernels (extrapolation on, query inside) were extracted", None not in (base_l, base_s, base_b), key='reference')
     if None in (base_l, base_s, base_b):
         return
     for k, o in ref.items():
@@ -98,8 +98,11 @@ def run(chk):
         rels = k[2:]
         inr = all(in_range(r) for r in rels)
         span = lib.body({'L': LIN, 'S': SPL, 'B': BIL}[fam])['span']
+        flag_off = k[1] in (False, 'No')
+        if inr and flag_off and sig(o) is None:
+            continue        # an in-range query rejected with extrapolation off is C05's subject
         if inr:
-            chk.ob('R6.1', "%s flag=%s, query %s: same lookup and same lane expression as with extrapolation off" % (name, k[1], rels),
+            chk.ob('R6.1', "%s flag=%s, query %s: same lookup and same lane expression for every value of the flag" % (name, k[1], rels),
                    same(sig(o), base), span, 'noninterf-%s-%s-%s' % (name, k[1], rels))
         elif not (fam == 'S' and k[1] == 'Periodic'):
             chk.ob('R6.3', "%s flag=%s, query %s (outside): same polynomial expression in the unmodified query as inside the range" %
